@@ -160,12 +160,13 @@ static void part_factory(const std::vector<size_t>& ns, const std::string& zfile
     // independent ring parameters on purpose: R_bend is NOT c/(2 pi f_rev)
     const double Rb = 5.559, frev = 2.7157e6; const float fmax = 2e12f;
     const double f0 = physcons::c / (2 * M_PI * Rb);
-    for (size_t n : ns) for (int gs = 0; gs < 3; gs++) for (int csr = 0; csr < 2; csr++) for (int wall = 0; wall < 2; wall++) for (int coll = 0; coll < 3; coll++) for (int file = 0; file < 2; file++) {
+    for (size_t n : ns) for (int gs = 0; gs < 3; gs++) for (int csr = 0; csr < 2; csr++) for (int wall = 0; wall < 2; wall++) for (int coll = 0; coll < 5; coll++) for (int file = 0; file < 2; file++) {
         const double gap = gs == 0 ? -0.03 : gs == 1 ? 0.0 : 0.032;
         std::string kase = mcx::Desc()("part", "factory")("n", n).f("gap", gap)("csr", csr)("wall", wall)("coll", coll)("file", file).str();
         if (!R.mine(kase)) continue;
         if (R.out_of_time()) { R.not_completed = kase; return; }
-        const double s = wall ? 5.8e7 : 0.0, xi = 0.1, crad = coll == 0 ? 0.0 : coll == 1 ? 0.004 : 0.05 /* wider than the pipe: not a collimator */;
+        const double s = wall ? 5.8e7 : 0.0, xi = 0.1, crad = coll == 0 ? 0.0 : coll == 1 ? 0.004 : coll == 2 ? 0.05 /* wider than the pipe: not a collimator */
+                                        : coll == 3 ? std::fabs(gap / 2) /* exactly the pipe radius: no constriction */ : 0.02 /* between the pipe radius and the full gap: wider than the pipe */;
         std::string f = file ? zfile : std::string("");
         auto got = makeImpedance(n, nullptr, fmax, Rb, frev, gap, csr, s, xi, crad, f);
         // reference: the contributions built separately and added sample by sample in the harness (not through Impedance::operator+=),
@@ -192,7 +193,7 @@ static void part_factory(const std::vector<size_t>& ns, const std::string& zfile
         R.maxnum("worst_factory_vs_sum", worst);
         if (f.empty()) wellformed(*got, n, "C16/factory", kase);   // a user-supplied table is not a model: anything may be in it
     }
-    R.bound_done("factory: sample counts x gap{<0,0,>0} x CSR x wall x collimator{none, inside, wider than pipe} x file (40 rows: longer, equal and shorter than the grid), with R_bend independent of f_rev; reference summed sample by sample in the harness");
+    R.bound_done("factory: sample counts x gap{<0,0,>0} x CSR x wall x collimator{none, inside, wider than the full gap, exactly the pipe radius, between radius and full gap} x file (40 rows: longer, equal and shorter than the grid), with R_bend independent of f_rev; reference summed sample by sample in the harness");
 }
 
 // causality through the real wake computation: impulse response of each model
